@@ -4,6 +4,7 @@ import (
 	"crypto"
 	"crypto/x509"
 	"encoding/base64"
+	"errors"
 	"fmt"
 	"io"
 	"net/http"
@@ -59,9 +60,10 @@ type c06ACS struct {
 }
 
 type c06ReqAttr struct {
-	Name     string `json:"name"`
-	Friendly string `json:"friendly,omitempty"`
-	Format   string `json:"format"`
+	Name     string   `json:"name"`
+	Friendly string   `json:"friendly,omitempty"`
+	Format   string   `json:"format"`
+	Listed   []string `json:"listed_values,omitempty"` // AttributeValue children of the RequestedAttribute in the SP's metadata
 }
 
 type c06AttrSvc struct {
@@ -113,11 +115,31 @@ type c06Step struct {
 	Relay      string `json:"relay"`
 	// Reconf: before this emission the operator changes the signature method on the SAME IdentityProvider object
 	// ("keep": no change; "default": unset; else a method URI) and optionally switches between Key and crypto.Signer
+	SPZoneMin  int    `json:"sp_clock_zone_minutes,omitempty"` // the SP's clock reports local time at this UTC offset (0: UTC)
+	ClientGone bool   `json:"client_gone,omitempty"`           // the browser has gone: every Write of the reply fails (sso / idp_initiated)
 	Reconf     string `json:"reconfigure_sig_method,omitempty"`
 	ReconfMode string `json:"reconfigure_key_mode,omitempty"` // "" | key | signer
 }
 
 // ---------------------------------------------------------------- registry / sessions
+
+func c06RequestedAttribute(ra c06ReqAttr) saml.RequestedAttribute {
+	out := saml.RequestedAttribute{Attribute: saml.Attribute{Name: ra.Name, FriendlyName: ra.Friendly, NameFormat: ra.Format}}
+	for _, v := range ra.Listed {
+		// values the SP's metadata lists as acceptable (saml-metadata 2.4.4.2); they say nothing about any user
+		out.Values = append(out.Values, saml.AttributeValue{Type: "xs:string", Value: v})
+	}
+	return out
+}
+
+// c06GoneWriter is the ResponseWriter of a connection whose client has gone away: every Write fails.
+type c06GoneWriter struct{ h http.Header }
+
+func (g *c06GoneWriter) Header() http.Header { return g.h }
+func (g *c06GoneWriter) WriteHeader(int)     {}
+func (g *c06GoneWriter) Write([]byte) (int, error) {
+	return 0, errors.New("write: broken pipe (injected)")
+}
 
 // c06Registry is a provider registry whose lookup is exact or case-insensitive (e.g. a database collation).
 type c06Registry struct {
@@ -181,7 +203,7 @@ func c06Descriptor(i int, m *c06SP) *saml.EntityDescriptor {
 				as.IsDefault = &v
 			}
 			for _, ra := range s.Attrs {
-				as.RequestedAttributes = append(as.RequestedAttributes, saml.RequestedAttribute{Attribute: saml.Attribute{Name: ra.Name, FriendlyName: ra.Friendly, NameFormat: ra.Format}})
+				as.RequestedAttributes = append(as.RequestedAttributes, c06RequestedAttribute(ra))
 			}
 			sd.AttributeConsumingServices = append(sd.AttributeConsumingServices, as)
 		}
@@ -291,7 +313,11 @@ func c06GenSP(g *Rng, i int) c06SP {
 			}
 			nr := 1 + g.Intn(4)
 			for r := 0; r < nr; r++ {
-				svc.Attrs = append(svc.Attrs, c06ReqAttrNames[g.Intn(len(c06ReqAttrNames))])
+				ra := c06ReqAttrNames[g.Intn(len(c06ReqAttrNames))]
+				if g.Bool(0.3) {
+					ra.Listed = [][]string{{"admin"}, {"admin", "operator", "auditor"}, {"zqlistedqz"}}[g.Intn(3)]
+				}
+				svc.Attrs = append(svc.Attrs, ra)
 			}
 			desc.AttrSvcs = append(desc.AttrSvcs, svc)
 		}
@@ -413,6 +439,12 @@ func genEgress(g *Rng, tier string) *Plan {
 		st.DelayMs = age - st.IdPSkewMs + st.SPSkewMs
 		if st.DelayMs < 0 {
 			st.IdPSkewMs, st.DelayMs = age+st.SPSkewMs, 0
+		}
+		if g.Bool(0.25) {
+			st.SPZoneMin = Pick(g, 120, -300, 330, -570, 840)
+		}
+		if st.Kind != "lib" && g.Bool(0.08) {
+			st.ClientGone = true
 		}
 		if len(p.Steps) > 0 && g.Bool(0.2) {
 			// an operator reconfigures the live IdP object between two emissions
@@ -646,7 +678,12 @@ func execEgress(t *testing.T, p *Plan) *Result {
 			spv := newSP(c06SPBase(st.SP), rsaKeys[1+st.SP], ent, idpMD)
 			var wireErr error
 			var pan any
-			at(ms(st.SPSkewMs), func() {
+			var zone *time.Location
+			if st.SPZoneMin != 0 {
+				zone = time.FixedZone("", st.SPZoneMin*60)
+				res.fire("sp-clock-zoned")
+			}
+			atZone(ms(st.SPSkewMs), zone, func() {
 				pan = guard(func() {
 					b := saml.HTTPRedirectBinding
 					if st.Binding == "post" {
@@ -717,6 +754,7 @@ func execEgress(t *testing.T, p *Plan) *Result {
 		// ---- the real IdP
 		var emitted *htmlForm
 		var raw2 string
+		clientGone := false
 		code := 0
 		pan := any(nil)
 		at(ms(st.IdPSkewMs), func() {
@@ -724,6 +762,17 @@ func execEgress(t *testing.T, p *Plan) *Result {
 				switch st.Kind {
 				case "sso", "idp_initiated":
 					w := httptest.NewRecorder()
+					if st.ClientGone {
+						// the reply cannot be delivered; whatever the IdP does with the failed write must not leak into later replies
+						gone := &c06GoneWriter{h: http.Header{}}
+						if st.Kind == "sso" {
+							idp.ServeSSO(gone, hr)
+						} else {
+							idp.ServeIDPInitiated(gone, hr, c06Entity(st.SP), st.Relay)
+						}
+						clientGone = true
+						return
+					}
 					if st.Kind == "sso" {
 						idp.ServeSSO(w, hr)
 					} else {
@@ -759,6 +808,11 @@ func execEgress(t *testing.T, p *Plan) *Result {
 		}
 		if st.IdPSkewMs != 0 || st.SPSkewMs != 0 {
 			res.fire("clock_skew")
+		}
+		if clientGone && pan == nil {
+			res.fire("client-gone")
+			res.logf("%s observed=CLIENT_GONE (reply could not be written)", head)
+			continue
 		}
 		if pan != nil {
 			res.logf("%s observed=PANIC", head)
